@@ -116,7 +116,25 @@ def check(prop, tier, seed):
     def do_k():
         if not cfg.get("kani"):
             return
-        kh_dir, hs = K.prepare(scratch, cfg["kani"])
+        mods = list(cfg["kani"])
+        for pm, ob in (cfg.get("compile_probes") or {}).items():
+            deps = [m for m in mods if m != pm]
+            ok, errs, other, plog = K.compile_probe(scratch, deps + [pm], pm)
+            if ok:
+                continue
+            # the program family does not build: is it the family itself?  (the rest must build without it)
+            ok_deps, _, _, dlog = K.compile_probe(scratch, deps, pm + "-deps")
+            errs = errs + other
+            if ok_deps and errs:
+                kres.setdefault("pre_violations", []).append(dict(
+                    obligation=ob, engine="rustc", harness=pm, site="kani/src/%s.rs" % pm, location=errs[0].split(": error")[0],
+                    values=None, native_replay=dict(outcome="does-not-compile", failed=[ob], panic=""), reproduced=True,
+                    verifier_output="\n".join(errs[:20]) + "\n...\n" + plog[-2500:], bound="program family in kani/src/%s.rs" % pm, kind="compile"))
+                mods.remove(pm)
+            else:
+                kres.setdefault("pre_undecided", []).append("engine K: compile probe for %s failed outside that module:\n%s" % (pm, plog[-2000:]))
+                mods.remove(pm)
+        kh_dir, hs = K.prepare(scratch, mods)
         sel = [h for h in hs if tier_ok(h.tier, tier)]
         flt = cfg.get("kani_filter_thorough" if tier == "thorough" else "kani_filter")
         if flt:
@@ -146,6 +164,8 @@ def check(prop, tier, seed):
             if tier == "thorough":
                 undecided.append(msg + " (new unsafe code is not covered by any contract: no verdict)")
     if kres:
+        violations += kres.get("pre_violations", [])
+        undecided += kres.get("pre_undecided", [])
         v, u, un = decide_kani(prop, kres["kh_dir"], kres["hs"], kres["kr"], tier)
         violations += v; undecided += u; units += un
     if vres:
@@ -273,7 +293,25 @@ def replay(path):
     if d.get("engine") == "kani" and d.get("values") is not None:
         cfg = PROPS[prop]
         scratch = Scratch("replay")
-        kh_dir, hs = K.prepare(scratch, cfg["kani"])
+        mods = list(cfg["kani"])
+        for pm, ob in (cfg.get("compile_probes") or {}).items():
+            deps = [m for m in mods if m != pm]
+            ok, errs, other, plog = K.compile_probe(scratch, deps + [pm], pm)
+            if ok:
+                continue
+            # the program family does not build: is it the family itself?  (the rest must build without it)
+            ok_deps, _, _, dlog = K.compile_probe(scratch, deps, pm + "-deps")
+            errs = errs + other
+            if ok_deps and errs:
+                kres.setdefault("pre_violations", []).append(dict(
+                    obligation=ob, engine="rustc", harness=pm, site="kani/src/%s.rs" % pm, location=errs[0].split(": error")[0],
+                    values=None, native_replay=dict(outcome="does-not-compile", failed=[ob], panic=""), reproduced=True,
+                    verifier_output="\n".join(errs[:20]) + "\n...\n" + plog[-2500:], bound="program family in kani/src/%s.rs" % pm, kind="compile"))
+                mods.remove(pm)
+            else:
+                kres.setdefault("pre_undecided", []).append("engine K: compile probe for %s failed outside that module:\n%s" % (pm, plog[-2000:]))
+                mods.remove(pm)
+        kh_dir, hs = K.prepare(scratch, mods)
         ok, exe, blog = K.build_replay(kh_dir)
         if not ok:
             print("replay binary did not build:\n" + blog)
@@ -282,6 +320,16 @@ def replay(path):
         print("native replay against %s: outcome=%s failed=%s panic=%s" % (REPO, rep["outcome"], ",".join(rep["failed"]), rep.get("panic")))
         print("values (one kani::any() draw per entry, little-endian bytes): %s" % d["values"])
         return EXIT_VIOLATION if rep["outcome"] in ("failed", "panicked") else EXIT_OK
+    if d.get("engine") == "rustc":
+        cfg = PROPS[prop]
+        scratch = Scratch("replay")
+        pm = d["harness"]
+        ok, errs, other, plog = K.compile_probe(scratch, [m for m in cfg["kani"] if m != pm] + [pm], pm)
+        errs = errs + other
+        print("native `cargo check` of the program family kani/src/%s.rs against %s: %s" % (pm, REPO, "compiles" if ok else "DOES NOT COMPILE"))
+        for e in errs[:10]:
+            print("  " + e)
+        return EXIT_OK if ok else EXIT_VIOLATION
     print("this violation has no concrete input (no-failing-input-found); failed obligation and verifier output:")
     print(d.get("verifier_output", ""))
     print("re-run: /verif/bin/check %s" % prop)
